@@ -81,6 +81,8 @@ func (fr *frame) set(v ssa.Value, val Value) { fr.locals[fr.fi.slots[valKey(v)]]
 type lockState struct {
 	writer  bool
 	readers int
+	ownerW  *thread         // logical thread holding the write lock (nil = the only thread)
+	ownerR  map[*thread]int // read holds per logical thread
 }
 
 type Interp struct {
@@ -108,6 +110,9 @@ type Interp struct {
 	unixMemo   map[int]*Term // id of the seconds variable handed out by (Time).Unix → the instant it came from
 	constCache map[*ssa.Const]Value
 	boxes      []Value
+	threads    []*thread
+	thr        *thread
+	mainThr    *thread
 }
 
 func NewInterp(cfg *Config, ex *Explorer) *Interp {
@@ -131,6 +136,7 @@ func (in *Interp) resetPath() {
 	in.lastNow = nil
 	in.unixMemo = map[int]*Term{}
 	in.boxes = nil
+	in.initThreads()
 }
 
 func unsupported(format string, a ...any) {
@@ -614,7 +620,7 @@ func (in *Interp) run(fr *frame, b *ssa.BasicBlock, prev *ssa.BasicBlock) Value 
 func (in *Interp) evalPoison(fr *frame, x ssa.Value) (v Value) {
 	defer func() {
 		if r := recover(); r != nil {
-			if pa, ok := r.(pathAbort); ok && (pa.kind == "infeasible" || pa.kind == "stop") {
+			if pa, ok := r.(pathAbort); ok && (pa.kind == "infeasible" || pa.kind == "stop" || pa.kind == "killed") {
 				panic(r)
 			}
 			v = poison{fmt.Sprint(r)}
